@@ -1277,6 +1277,11 @@ class H2Stream:
             )
         ]
 
+        # An empty header list (legal for trailers) encodes to nothing: that
+        # is still one frame, with an empty header block fragment.
+        if not header_blocks:
+            header_blocks = [b'']
+
         frames = []
         first_frame.data = header_blocks[0]
         frames.append(first_frame)
